@@ -39,6 +39,26 @@ CLAIMED.update({
             "top-left block for every pair of coherent shapes and all four order combinations, leaving the rest of dest, its shape and order unchanged, with every unchecked range inside both buffers.",
             TB + " Clone counts (each overlap element cloned once, nothing moved out of src) are checked by the harness ledger, not proved.", "DESIGN §7 C14"),
 })
+CLAIMED.update({
+    'C06': ("Rocq proofs about the skip/step_by/take views and the mutable vector offsets + differential correspondence; one known finding",
+            "The k-th row/column view of the executable model (the std adaptor chain as executed) is proved to be exactly the logical row/column with exact length for every coherent shape and both orders; "
+            "the nth variants fail exactly for n >= extent; the mutable outer iterators hand out nrows/ncols vectors at the same positions whenever the matrix has elements. "
+            "For element-less matrices with a non-zero extent the mutable outer iterators yield nothing (known finding F2, refuted by witness in Props/C06.v and reproduced on the crate every run).",
+            TB + " Consumption from either end is the deque semantics of Model/Views.v, validated by scripts, not a theorem about std's DoubleEndedIterator impls.", "DESIGN §7 C06"),
+    'C07': ("Rocq proof of == (both branches incl. the short-circuiting cross-order loop) + metamorphic differential correspondence",
+            "== of the executable model is proved true exactly when logical shapes agree and elements at equal logical positions are equal, for any orders, never reading out of range; re-storing an operand "
+            "in the other order cannot change the outcome. Order-transparency of the other operations is carried by the theorems of C05/C06/C10/C11/C12/C14 (all stated through the logical accessor) "
+            "and exercised by running random programs twice with switch_order inserted at arbitrary points.",
+            TB + " Reflexivity/symmetry/transitivity follow from C07_eq_iff for element relations that have them; Display transparency is C20's.", "DESIGN §7 C07"),
+    'C12': ("Rocq proofs of conformability and of the three elementwise drivers (same-order zip, cross-order remap) + differential correspondence",
+            "is_elementwise_operation_conformable <-> equal logical shapes; for conformable operands the drivers produce op(lhs[r][c], rhs[r][c]) at every position in lhs's shape and order, the cross-order "
+            "unchecked read proved in range; otherwise ShapeNotConformable. Named methods and operators are the same drivers with the primitive operator (model Step.binop), validated on symbolic elements.",
+            TB, "DESIGN §7 C12"),
+    'C15': ("Rocq proofs of the flat-index/(row,col) bijection and of iter_elements_with_index + differential correspondence",
+            "Index::from_flattened is proved to be the inverse of the position function on 0..size (no division by zero / overflow), unique; every with_index item pairs element k with an index for which get returns it; "
+            "memory order is row-by-row / column-by-column by definition of the position function. Validated after random order/shape-changing prefixes, from both ends, sequential and parallel.",
+            TB, "DESIGN §7 C15"),
+})
 NOT_APPLICABLE = {}
-for _p in ['C01', 'C02', 'C03', 'C06', 'C07', 'C11', 'C12', 'C15', 'C16', 'C17', 'C18', 'C19', 'C20']:
+for _p in ['C01', 'C02', 'C03', 'C11', 'C16', 'C17', 'C18', 'C19', 'C20']:
     NOT_APPLICABLE[_p] = "not claimed yet: the check for this property is still being built in this round (the technique applies; see DESIGN.md §7)"
